@@ -47,7 +47,7 @@ def field_layout(token_cls, field):
 
 class Row:
     def __init__(self, cls, size, value, rep, layout=None, pre=None, endian="little", manual=True,
-                 expected=None, uses_addend=False, note="", template=None):
+                 expected=None, uses_addend=False, note="", template=None, post=None, setup=None):
         self.cls = cls                  # 'module:Class'
         self.size = size
         self.value = value
@@ -60,6 +60,8 @@ class Row:
         self.uses_addend = uses_addend
         self.note = note
         self.template = template        # (word_old) -> [conds] : template bits the relocation ORs into
+        self.setup = setup              # optional: contract setup hook (e.g. callee stubs); returns an undo function
+        self.post = post                # optional: (old bytes, new bytes, S, P, A) -> [(name, cond)] custom postcondition
 
     @property
     def __name__(self):
@@ -93,6 +95,73 @@ def _align2(p):
 
 def _align4(p):
     return p + ((4 - p % 4) % 4)
+
+
+def _abs(v):
+    return ite(v < 0, lambda: -v, lambda: v)
+
+
+def _ror32(v, k):
+    return v if k == 0 else v // (1 << k) + (v % (1 << k)) * (1 << (32 - k))
+
+
+def _imm32_ok(v):
+    """v (0 <= v < 2^32) is an 8-bit value rotated right by an even amount"""
+    def rol(x, k):
+        return _ror32(x, (32 - k) % 32)
+    return or_(*[rol(v, 2 * i) < 256 for i in range(16)])
+
+
+def _adr_setup(g):
+    """callee abstraction: encode_imm32 replaced by its (C39-verified) contract -- raises ValueError iff the value is not a rotated
+    8-bit immediate, otherwise returns some e < 4096 with ror32(e & 0xFF, 2 * (e >> 8)) == v"""
+    import z3
+    import ppci.arch.arm.arm_relocations as m
+    from pyvc.sym import SymInt, ctx, as_z3_bool
+    from pyvc.spec import pick
+    old = m.encode_imm32
+    real = old
+
+    def stub(v):
+        if not isinstance(v, SymInt):
+            return real(v)
+        c = ctx()
+        if not bool(_imm32_ok(v)):
+            raise ValueError("cannot encode value")
+        e = SymInt(z3.Int(c.fresh_name("imm12")))
+        c.assume(z3.And(e.e >= 0, e.e < 4096))
+        rot = pick(e // 256, 16)
+        c.assume(as_z3_bool(_ror32(e % 256, (2 * rot) % 32) == v))
+        return e
+    m.encode_imm32 = stub
+
+    def undo():
+        m.encode_imm32 = old
+    return undo
+
+
+def _adr_post(old, new, V):
+    """byte-wise: new[0] = imm8, low nibble of new[1] = rotation, bits 7:6 of new[2] = ADD / SUB selector"""
+    from pyvc.spec import pick
+    rot = pick(new[1] % 16, 16)
+    out = [("bits 23:22 select ADD (10) for V >= 0 and SUB (01) for V < 0", new[2] // 64 == ite(V >= 0, lambda: 2, lambda: 1)),
+           ("frame: the other bits of byte 2 are unchanged", new[2] % 64 == old[2] % 64),
+           ("frame: the upper nibble of byte 1 (rd) is unchanged", new[1] // 16 == old[1] // 16),
+           ("frame: byte 3 (cond, opcode) is unchanged", new[3] == old[3])]
+    if isinstance(rot, int):
+        out.append(("imm12 decodes (imm8 rotated right by 2*rot) to |V|", _ror32(new[0], (2 * rot) % 32) == _abs(V)))
+    else:
+        out.append(("rotation field in range", False))
+    return out
+
+
+def _bcond_bits(enc):
+    """bits the T3 conditional branch relocation sets for the signed 18-bit halfword offset enc"""
+    u = enc % (1 << 18)
+    imm11 = u % 2048
+    imm6 = (u // 2048) % 64
+    s = u // (1 << 17)
+    return imm6 + s * (1 << 10) + imm11 * (1 << 16) + s * (1 << 27) + s * (1 << 29)
 
 
 J_TYPE = [(21, 0, 10), (20, 10, 1), (12, 11, 8), (31, 19, 1)]
@@ -142,7 +211,25 @@ ROWS = [
         template=lambda w: [w % 4096 == 0, (w // (1 << 23)) % 2 == 0],
         expected=lambda w, S, P, A: w + ite(S - (P + 8) >= 0, lambda: (1 << 23) + (S - (P + 8)), lambda: -(S - (P + 8))),
         note="LDR (literal): U = (offset >= 0), imm12 = |offset|; the relocation ORs into a template whose U and imm12 bits are 0"),
+    # ADR (A32): ADD / SUB rd, pc, #modified-immediate.  The 12-bit field holds ANY valid encoding of |V| (decoded by rotating imm8
+    # right by 2*rot); bits 23 / 22 select ADD / SUB; the relocation ORs into a template with those bits and the field clear.
+    Row(ARM + "AdrImm12Relocation", 4, lambda S, P, A: S - (P + 8), lambda S, P, A: and_(S - (P + 8) > -4096, S - (P + 8) < 4096, _imm32_ok(_abs(S - (P + 8)))),
+        None, pre=lambda S, P, A: mult4(S, P), template=lambda w: [w % 4096 == 0, (w // (1 << 22)) % 4 == 0],
+        post=lambda old, new, S, P, A: _adr_post(old, new, S - (P + 8)), setup=lambda g: _adr_setup(g),
+        note="ADR: |V| < 4096 and |V| a rotated 8-bit immediate; imm12 checked by decoding (any valid rotation)"),
     # ---- Thumb ----
+    # BL / B.W (T1/T4): offset = SignExtend(S:I1:I2:imm10:imm11:0), I1 = NOT(J1 xor S), I2 = NOT(J2 xor S).  ppci's templates have
+    # J1 = J2 = 1 and the relocation writes S, imm10, imm11 only, so I1 = I2 = S: representable iff bits 22, 23 of V equal its sign.
+    Row(TH + "BlImm11Relocation", 4, lambda S, P, A: (S - (_align2(P) + 4)) // 2, lambda S, P, A: sfit((S - (_align2(P) + 4)) // 2, 22),
+        [(16, 0, 11), (0, 11, 10), (10, 23, 1)], pre=lambda S, P, A: even(S),
+        template=lambda w: [(w // (1 << 29)) % 2 == 1, (w // (1 << 27)) % 2 == 1],
+        note="BL T1 with J1 = J2 = 1 as ppci's instruction templates emit them"),
+    # B<cond>.W (T3): offset = SignExtend(S:J2:J1:imm6:imm11:0); the relocation ORs S, J1 = J2 = S, imm6, imm11 into a zero template.
+    Row(TH + "BImm11Imm6Relocation", 4, lambda S, P, A: (S - (_align2(P) + 4)) // 2, lambda S, P, A: sfit((S - (_align2(P) + 4)) // 2, 18),
+        None, pre=lambda S, P, A: even(S),
+        template=lambda w: [w % 64 == 0, (w // (1 << 10)) % 2 == 0, (w // (1 << 16)) % (1 << 11) == 0, (w // (1 << 27)) % 2 == 0, (w // (1 << 29)) % 2 == 0],
+        expected=lambda w, S, P, A: w + _bcond_bits((S - (_align2(P) + 4)) // 2),
+        note="B.W T3: J1 = J2 = S, so representable iff bits 18, 19 of V equal its sign"),
     Row(TH + "Lit8Relocation", 2, lambda S, P, A: (S - ((P + 4) // 4) * 4) // 4,
         lambda S, P, A: and_(S - ((P + 4) // 4) * 4 >= 0, S - ((P + 4) // 4) * 4 <= 1020),
         [(0, 0, 8)], pre=lambda S, P, A: mult4(S) + even(P),
@@ -233,9 +320,6 @@ def all_rows():
 # undecided obligation, so a newly added relocation class cannot slip through
 NO_ROW = {
     "ppci.arch.riscv.rvc_relocations:CRel": "abstract base class",
-    "ppci.arch.arm.arm_relocations:AdrImm12Relocation": "ADR with rotated immediate: specified under the thorough tier only (encode_imm32 is C39)",
-    "ppci.arch.arm.thumb_relocations:BlImm11Relocation": "BL T1 with J1/J2 taken from the template: row pending",
-    "ppci.arch.arm.thumb_relocations:BImm11Imm6Relocation": "B.W T3: row pending",
 }
 
 
@@ -266,6 +350,10 @@ for _cls, _n in ((RV + "BImm12Relocation", 12), (RV + "BImm20Relocation", 20), (
                  ("ppci.arch.xtensa.instructions:Ri16Relocation", 16), ("ppci.arch.xtensa.instructions:Call0Relocation", 18)):
     _A[_cls] = ("wrap_negative / an unsigned field declaration admits the unsigned upper half [2^(n-1), 2^n) of an ISA-signed %d-bit field" % _n,
                 (lambda n: lambda row, S, P, A: _upper(row.value(S, P, A), n))(_n))
+_A[TH + "BlImm11Relocation"] = ("the assert admits offsets up to +-16 MiB, but J1 / J2 are never written: offsets beyond +-4 MiB are mis-encoded",
+                                 lambda row, S, P, A: and_(row.value(S, P, A) * 2 >= -16777216, row.value(S, P, A) * 2 < 16777214))
+_A[TH + "BImm11Imm6Relocation"] = ("the assert admits offsets up to +-1 MiB, but J1 = J2 = S: offsets beyond +-256 KiB are mis-encoded",
+                                    lambda row, S, P, A: and_(row.value(S, P, A) * 2 >= -1048576, row.value(S, P, A) * 2 < 1048574))
 _A["ppci.arch.xtensa.instructions:Imm12Relocation"] = ("assert range(-2096, 2095) is wider than the signed 12-bit field",
                                                       lambda row, S, P, A: and_(row.value(S, P, A) >= 2048, row.value(S, P, A) <= 2094))
 _A["ppci.arch.xtensa.instructions:Imm18Relocation"] = ("assert range(-131068, 131075) is wider than the signed 18-bit field",
